@@ -560,23 +560,24 @@ class Daemon(object):
         if self._shutting_down:
             return
         with self.housekeeper_lock:
-            if self.streaming_responses:
-                if config.ITER_STREAM_LIFETIME > 0:
-                    # cleanup iter streams that are past their lifetime
-                    for streamId in list(self.streaming_responses.keys()):
-                        info = self.streaming_responses.get(streamId, None)
-                        if info:
-                            last_use_period = time.time() - info[1]
-                            if 0 < config.ITER_STREAM_LIFETIME < last_use_period:
-                                self.streaming_responses.pop(streamId, None)   # (may be gone already: closed or exhausted meanwhile)
-                if config.ITER_STREAM_LINGER > 0:
-                    # cleanup iter streams that are past their linger time
-                    for streamId in list(self.streaming_responses.keys()):
-                        info = self.streaming_responses.get(streamId, None)
-                        if info and info[2]:
-                            linger_period = time.time() - info[2]
-                            if linger_period > config.ITER_STREAM_LINGER:
-                                self.streaming_responses.pop(streamId, None)
+            with self.streaming_lock:    # (connection workers and oneway threads change the table too)
+                if self.streaming_responses:
+                    if config.ITER_STREAM_LIFETIME > 0:
+                        # cleanup iter streams that are past their lifetime
+                        for streamId in list(self.streaming_responses.keys()):
+                            info = self.streaming_responses.get(streamId, None)
+                            if info:
+                                last_use_period = time.time() - info[1]
+                                if 0 < config.ITER_STREAM_LIFETIME < last_use_period:
+                                    self.streaming_responses.pop(streamId, None)   # (may be gone already: closed or exhausted meanwhile)
+                    if config.ITER_STREAM_LINGER > 0:
+                        # cleanup iter streams that are past their linger time
+                        for streamId in list(self.streaming_responses.keys()):
+                            info = self.streaming_responses.get(streamId, None)
+                            if info and info[2]:
+                                linger_period = time.time() - info[2]
+                                if linger_period > config.ITER_STREAM_LINGER:
+                                    self.streaming_responses.pop(streamId, None)
             self.housekeeping()
 
     def housekeeping(self):
